@@ -130,7 +130,13 @@ func runC18(c *Ctx) Info {
 		// 3. PARAMS-RO ------------------------------------------------------------------
 		if o == e.ParObj {
 			construct := describeInstr(ef.Instr)
-			if why, ok := guardedNormalisation(ef.Instr); ok {
+			why, ok := guardedNormalisation(ef.Instr)
+			if !ok {
+				if why2, ok2 := c.cellNormalisation(ef.Instr); ok2 {
+					why, ok = why2, true
+				}
+			}
+			if ok {
 				c.add("PARAMS-RO", ef.Fn, construct, report.Discharged, c.P.Pos(ef.Instr.Pos()), "guarded normalisation: "+why)
 				continue
 			} else if _, isStore := ef.Instr.(*ssa.Store); isStore {
@@ -419,6 +425,182 @@ func guardedNormalisation(ins ssa.Instruction) (string, bool) {
 		}
 	}
 	return fmt.Sprintf("write to field %s is guarded by tests of the same field; guards and value depend only on the object and constants", fname), true
+}
+
+// cellNormalisation recognises the same idiom written as a helper over a pointer to the field:
+//
+//	func limitTo(field *int, lowest, highest int) { if *field < lowest { *field = lowest } … }
+//
+// The store goes through a pointer parameter; every controlling branch tests the pointed-to cell
+// (or is itself guarded); guards and stored value depend only on the cell, constants, and other
+// parameters that receive a constant at every call site in the library (limitTo(&p.Quality, 1, 100)).
+func (c *Ctx) cellNormalisation(ins ssa.Instruction) (string, bool) {
+	st, ok := ins.(*ssa.Store)
+	if !ok {
+		return "", false
+	}
+	cell, ok := st.Addr.(*ssa.Parameter)
+	if !ok {
+		return "", false
+	}
+	if pt, ok := cell.Type().Underlying().(*types.Pointer); !ok || !isIntBasic(pt.Elem()) {
+		return "", false
+	}
+	fn := ins.Parent()
+	loadsCell := func(v ssa.Value) bool {
+		for x := range backwardSlice(v, 200) {
+			if u, ok := x.(*ssa.UnOp); ok && u.Op == token.MUL && u.X == ssa.Value(cell) {
+				return true
+			}
+		}
+		return false
+	}
+	// other parameters must be constants at every call site
+	constParam := map[*ssa.Parameter]bool{}
+	for i, p := range fn.Params {
+		if p == cell {
+			continue
+		}
+		all, n := true, 0
+		for _, caller := range c.scopeFuncs() {
+			for _, b := range caller.Blocks {
+				for _, in := range b.Instrs {
+					call, ok := in.(ssa.CallInstruction)
+					if !ok || call.Common().StaticCallee() != fn || i >= len(call.Common().Args) {
+						continue
+					}
+					n++
+					arg := call.Common().Args[i]
+					if _, isK := arg.(*ssa.Const); isK {
+						continue
+					}
+					// handed on from an enclosing helper of the same kind whose own argument is constant
+					if pp, isP := arg.(*ssa.Parameter); isP && pp.Parent() != fn {
+						if why, ok := c.paramAlwaysConst(pp, 0); ok {
+							_ = why
+							continue
+						}
+					}
+					all = false
+				}
+			}
+		}
+		constParam[p] = all && n > 0
+	}
+	onlyCellAndConsts := func(v ssa.Value) (string, bool) {
+		for x := range backwardSlice(v, 300) {
+			switch y := x.(type) {
+			case *ssa.Parameter:
+				if y != cell && !constParam[y] {
+					return "parameter " + y.Name() + " is not a constant at every call site", false
+				}
+			case *ssa.FreeVar:
+				return "captured variable " + y.Name(), false
+			case *ssa.UnOp:
+				if y.Op == token.MUL && y.X != ssa.Value(cell) {
+					if _, isG := y.X.(*ssa.Global); !isG {
+						return "load from " + addrExpr(y.X), false
+					}
+				}
+			case *ssa.Call:
+				if sc := y.Call.StaticCallee(); sc == nil || !pureHelper(sc) {
+					if _, isB := y.Call.Value.(*ssa.Builtin); !isB {
+						return "call " + y.Call.Value.Name(), false
+					}
+				}
+			}
+		}
+		return "", true
+	}
+	pd := newPostDom(fn)
+	memo := map[*ssa.BasicBlock]int{}
+	var conds []ssa.Value
+	var guarded func(b *ssa.BasicBlock) bool
+	guarded = func(b *ssa.BasicBlock) bool {
+		if v, ok := memo[b]; ok {
+			return v == 1
+		}
+		memo[b] = 0
+		ctl := controllers(fn, pd, b)
+		if len(ctl) == 0 {
+			return false
+		}
+		for _, ct := range ctl {
+			cond := ifCond(ct.Block)
+			if cond == nil {
+				return false
+			}
+			conds = append(conds, cond)
+			if loadsCell(cond) {
+				continue
+			}
+			if !guarded(ct.Block) {
+				return false
+			}
+		}
+		memo[b] = 1
+		return true
+	}
+	if !guarded(ins.Block()) {
+		return "", false
+	}
+	for _, cnd := range conds {
+		if _, ok := onlyCellAndConsts(cnd); !ok {
+			return "", false
+		}
+	}
+	if _, ok := onlyCellAndConsts(st.Val); !ok {
+		return "", false
+	}
+	return "write through the field pointer " + cell.Name() + " is guarded by tests of the pointed-to value; guards and value depend only on it and on constants", true
+}
+
+// paramAlwaysConst: parameter p receives a constant at every static call site of its function.
+func (c *Ctx) paramAlwaysConst(p *ssa.Parameter, depth int) (string, bool) {
+	fn := p.Parent()
+	idx := paramIndex(fn, p)
+	if idx < 0 || depth > 2 {
+		return "", false
+	}
+	n := 0
+	for _, caller := range c.scopeFuncs() {
+		for _, b := range caller.Blocks {
+			for _, in := range b.Instrs {
+				call, ok := in.(ssa.CallInstruction)
+				if !ok || call.Common().StaticCallee() != fn || idx >= len(call.Common().Args) {
+					continue
+				}
+				n++
+				if _, isK := call.Common().Args[idx].(*ssa.Const); !isK {
+					return "", false
+				}
+			}
+		}
+	}
+	return "", n > 0
+}
+
+// pureHelper: a small library function without stores, map updates or calls other than builtins
+// (nearestPowerOf2 and the like).
+func pureHelper(fn *ssa.Function) bool {
+	if fn.Blocks == nil || !load.InScope(fn) {
+		return false
+	}
+	for _, b := range fn.Blocks {
+		for _, ins := range b.Instrs {
+			switch x := ins.(type) {
+			case *ssa.Store, *ssa.MapUpdate, *ssa.Go, *ssa.Defer:
+				return false
+			case *ssa.Call:
+				if _, isB := x.Call.Value.(*ssa.Builtin); !isB {
+					if sc := x.Call.StaticCallee(); sc == nil || sc.Pkg == nil || sc.Pkg.Pkg.Path() != "math/bits" {
+						return false
+					}
+				}
+			}
+		}
+	}
+	return true
 }
 
 // dependsOnlyOnObject: v is computed from constants, globals, fresh allocations and loads of
